@@ -221,9 +221,14 @@ def run(P, rep, tier):
     rep.explanation = ('Term-level translation validation of the floating part of the code generator (see C01): for each floating operator, comparison, truth test, '
                        'negation, constant and every conversion cell involving a floating type, the emitted templates are evaluated over terms and compared with the '
                        'IEEE/C11-prescribed term (precision, operand roles incl. the AT&T fsubrp/fdivrp and ucomis/fcomip operand order, NaN predicates, rounding mode '
-                       'set and restored, width of the integer side). Bit patterns for concrete operands are not computed: the hardware\'s IEEE arithmetic is trusted.')
+                       'set and restored, width of the integer side). Bit patterns for concrete operands are not computed: the hardware\'s IEEE arithmetic is trusted. '
+                       'Parser lowerings of ++/--/op= with floating operands are interpreted on concrete operand trees and the typed result is evaluated over a symbolic store in which '
+                       'floating operations are rounding (non-invertible) operations. include/float.h is read through clang and compared with the characteristics computed from the '
+                       'formats the compiler uses.')
     rep.assumptions += ['Intel SDM semantics of SSE/x87 mnemonics incl. GNU as operand-order quirks (confirmed against the assembler once, sa/x86.py)',
-                        'children leave float/double in %xmm0 and long double in %st(0)']
+                        'children leave float/double in %xmm0 and long double in %st(0)',
+                        'R02.12/R02.13 evaluate the lowered tree for a single thread (a compare-exchange whose expected value was just read from the object succeeds); compiler temporaries do not alias program objects',
+                        'R02.14: clang-14 is the reader of include/float.h (macro table, type and value of each expansion); macros defined through names the header does not define are reported undecided']
     rep.rule('R02.1', 'every conversion cell with a floating source or target: signed/unsigned and width handling of the integer side, truncation toward zero with the x87 control word restored, precision of the floating side', floor=60)
     r015(cg, rep, 'fp')
     from ..lib_types import r_common_type, r_add_type
@@ -255,3 +260,17 @@ def run(P, rep, tier):
     r024(cg, rep)
     r025_num(cg, rep)
     r026(P, rep)
+    # value semantics of the trees the parser builds for A++ / A-- / A op= B with floating operands (sa/lib_c02.py)
+    from ..lib_c02 import r_incdec, r_compound, r_float_h
+    rep.rule('R02.12', 'postfix ++ / -- on a float, double or long double object (variable, dereference, member; plain or _Atomic): the value of the expression is the value the '
+             'object held before (C11 6.5.2.4p2) - not something recomputed from the updated object, floating addition rounds - and the object becomes old + 1 / old - 1 '
+             'computed in the type of the object', floor=24)
+    r_incdec(P, rep, 'R02.12')
+    rep.rule('R02.13', 'compound assignment A op= B with a floating type on either side (every floating/integer pairing, variable / dereference / member, plain and _Atomic): the '
+             'tree to_assign() builds, once typed by add_type(), stores (T)((C)A op (C)B) with C the common type of the operands and yields that value with the type of A '
+             '(C11 6.5.16.2p3); prefix ++ / -- are this with B = 1', floor=40)
+    r_compound(P, rep, 'R02.13', tier)
+    rep.rule('R02.14', 'include/float.h: every macro C11 5.2.4.2.2 lists is defined, and its value and type are the characteristic of the format the compiler gives the type '
+             '(object size from type.c, register class from the load template of codegen.c: float = binary32, double = binary64, long double = x87 extended); integer '
+             'characteristics are usable in #if', floor=80)
+    r_float_h(P, rep, 'R02.14')
